@@ -227,9 +227,11 @@ def cassette_cases():
 
 
 def replay_cases():
-    vals = st.one_of(V.small_values, mutable_values())
-    progs = PS.programs(values=vals, max_steps=6, threads=False, in_behs=('ret', 'ret', 'ret', 'raise'),
-                        out_behs=('ret', 'ret', 'raise'), endings=('return',))
+    # one value family per program (objects-without-aliasing / aliasing-without-list-state), see DESIGN.md 2.2
+    fam_a = st.one_of(V.small_values, V.values.filter(lambda d: V.is_mutable(V.build(d))))
+    fam_b = V.aliasing_values()
+    progs = st.one_of(*[PS.programs(values=vals, max_steps=6, threads=False, in_behs=('ret', 'ret', 'ret', 'raise'),
+                                    out_behs=('ret', 'ret', 'raise'), endings=('return',)) for vals in (fam_a, fam_a, fam_b)])
     return st.fixed_dictionaries({'kind': st.just('replay'), 'prog': progs,
                                   'cassette': st.sampled_from(['memory', 'memory', 'file', 's3', 'async']),
                                   'copy_on': st.booleans()})
